@@ -19,18 +19,27 @@ coroutines with the default recursion limit:
   is fired before or after its callbacks are added.
 * inline — an @inlineCallbacks generator awaiting M Deferreds (pre-fired subset,
   rest fired later in tape order), including yields of nested already-finished
-  generators/coroutines.
-* coro   — the same loop as an ``async def`` run by ensureDeferred.
+  generators/coroutines and, for a periodic subset, yields of plain
+  (non-Deferred) values.  The RESULTS of the awaited Deferreds, the return
+  values of the nested computations and the plain yielded values follow a
+  tape-chosen pattern of value shapes: ints, None, 0, False/True, 0.0, empty
+  str/bytes/tuple/list/dict, strings, tuples, plain objects, an exception
+  instance handed over as a success value, a class.  A pre-fired Deferred got
+  its result from callback()/errback(), succeed()/fail(), from what its last
+  callback returned / raised, or by chaining itself to a fired Deferred.
+* coro   — the same loop as an ``async def`` run by ensureDeferred (no plain
+  values: ``await 3`` is a TypeError).
 
 N, M are drawn log-uniformly by size class from 10 up to 10^5 (the top class is
 rare so that the quick tier stays inside its budget; the thorough tier simply
 sees more of them).  Oracle: a trivial sequential loop predicts every callback
-input and the final result; no RecursionError; and a stack probe — every user
+input, every value a ``yield`` / ``await`` evaluates to, and the final result; no RecursionError; and a stack probe — every user
 callback / loop body walks ``sys._getframe`` — whose maximum must not exceed the
 maximum of the SAME shape run at length 12 by more than a small slack.
 """
 import random
 import sys
+import zlib
 
 from twisted.internet import defer
 from twisted.python.failure import Failure
@@ -52,13 +61,21 @@ RULE = ("run = one chain of N Deferreds (d_k's callback returns d_k+1, followed 
         "(size classes 10-200 / 200-2000 / 2000-20000 / 20000-100000 with weights 60/30/9/1), firing order, pre-fired subset, paused subset, "
         "success/failure patterns chosen by the tape; a tape-chosen periodic subset of chain follow-ups / pipeline steps returns an ALREADY-FIRED Deferred "
         "(success or failure; succeed()/fail(), hand-fired, or fired-by-chaining) instead of a plain value, and a periodic subset of pipeline steps returns "
-        "its own Deferred that is pre-fired, fired later or fired-but-paused; non-trivial = length >= 100 (a recursive implementation would already exceed "
+        "its own Deferred that is pre-fired, fired later or fired-but-paused; in the inlineCallbacks/async loops the results of the awaited Deferreds, the "
+        "return values of nested finished generators/coroutines and (generator only) a periodic subset of plain non-Deferred yields take a tape-chosen "
+        "pattern of value shapes (int only / None only / int+None / falsy scalars and empty containers / objects, strings, tuples, exception instance "
+        "as a value, class / all 16 shapes), and a pre-fired Deferred obtained its result via callback()/errback(), succeed()/fail(), its last "
+        "callback's return value or raise, or chaining to a fired Deferred; non-trivial = length >= 100 (a recursive implementation would already exceed "
         "the stack bound)")
 ASSUMPTIONS = ["CPython default recursion limit (1000) is left untouched", "operations are issued from outside callbacks",
                "the top size class (2*10^4..10^5) is drawn in about 1% of runs in either tier",
                "'chain' is read as: every implicit chaining step (a callback returning a Deferred, fired or not) of a program whose number of such "
                "steps is N - links of a chain, steps of a pipeline on one Deferred, or both mixed; each follow-up / step outcome equals the plain-value "
-               "outcome whether or not it is wrapped in an already-fired Deferred (documented Deferred chaining semantics)"]
+               "outcome whether or not it is wrapped in an already-fired Deferred (documented Deferred chaining semantics)",
+               "'already-fired Deferreds' is read without restriction on their results: any Python object that is not a Deferred / Failure is an "
+               "ordinary success result (None, falsy values, empty containers, an exception instance passed to callback(), a class); a generator "
+               "yielding a non-Deferred, non-coroutine value gets that very value back (inlineCallbacks documentation) and such yields count as steps "
+               "of the loop; the loop body must see a value of the same type and content (identity is not demanded)"]
 
 SLACK = 6
 BASELINE_LEN = 12
@@ -346,35 +363,146 @@ def run_pipe(n, cfg, out):
 
 # ---------------------------------------------------------------- families: inline / coro
 
+class Box:
+    """A plain application object used as a Deferred result / yielded value."""
+
+    def __init__(self, k):
+        self.k = k
+
+
+# The shapes a (success) result may take.  The statement quantifies over "already-fired Deferreds" without restricting their
+# results, so the loops are fed every ordinary kind of Python value, in particular the ones that compare / test like "nothing".
+VALUE_KINDS = ("int", "none", "zero", "false", "true", "float-zero", "empty-str", "empty-bytes", "empty-tuple", "empty-list", "empty-dict",
+               "str", "tuple", "object", "exc-instance", "class")
+VALUE_PATTERNS = [("int",),                                   # simplest first: what the loops awaited before values were varied
+                  ("none",),
+                  ("int", "none"),
+                  ("zero", "false", "empty-str", "empty-tuple", "empty-list", "empty-dict", "float-zero", "empty-bytes"),
+                  ("object", "str", "tuple", "exc-instance", "class", "true"),
+                  VALUE_KINDS]
+
+
+def kind_of(k, cfg):
+    pat = VALUE_PATTERNS[cfg.get("value_pattern", 0)]
+    return pat[(k + k // 7) % len(pat)]      # the k // 7 drift keeps the kinds from locking step with prefire_mod / nest_mod / plain_mod
+
+
+def make_value(k, kind):
+    """The real value of shape `kind` that carries the number k (where the shape can carry anything)."""
+    if kind == "int":
+        return k
+    if kind == "none":
+        return None
+    if kind == "zero":
+        return 0
+    if kind == "false":
+        return False
+    if kind == "true":
+        return True
+    if kind == "float-zero":
+        return 0.0
+    if kind == "empty-str":
+        return ""
+    if kind == "empty-bytes":
+        return b""
+    if kind == "empty-tuple":
+        return ()
+    if kind == "empty-list":
+        return []
+    if kind == "empty-dict":
+        return {}
+    if kind == "str":
+        return "s%d" % k
+    if kind == "tuple":
+        return (k, None)
+    if kind == "object":
+        return Box(k)
+    if kind == "exc-instance":
+        return Boom(k)          # an exception INSTANCE handed over as a success value (never raised, never wrapped in a Failure)
+    if kind == "class":
+        return Box
+    raise AssertionError(kind)
+
+
+def value_abs(v):
+    """Abstract, hashable description of a value the loop body received (type name + content)."""
+    t = type(v)
+    if v is None or t in (int, bool, float, str, bytes):
+        return (t.__name__, v)
+    if t is tuple:
+        return ("tuple",) + tuple(value_abs(x) for x in v)
+    if t in (list, dict):
+        return (t.__name__, len(v))
+    if t is Box:
+        return ("Box", v.k)
+    if t is Boom:
+        return ("Boom-instance", v.args)
+    if t is type:
+        return ("class", v.__name__)
+    if isinstance(v, Failure):
+        return ("Failure", type(v.value).__name__)
+    return ("<%s>" % t.__name__,)
+
+
+# model side: what value_abs() must report for the value of shape `kind` carrying k - written out, not computed from make_value
+EXPECTED_ABS = {
+    "int": lambda k: ("int", k), "none": lambda k: ("NoneType", None), "zero": lambda k: ("int", 0), "false": lambda k: ("bool", False),
+    "true": lambda k: ("bool", True), "float-zero": lambda k: ("float", 0.0), "empty-str": lambda k: ("str", ""),
+    "empty-bytes": lambda k: ("bytes", b""), "empty-tuple": lambda k: ("tuple",), "empty-list": lambda k: ("list", 0),
+    "empty-dict": lambda k: ("dict", 0), "str": lambda k: ("str", "s%d" % k), "tuple": lambda k: ("tuple", ("int", k), ("NoneType", None)),
+    "object": lambda k: ("Box", k), "exc-instance": lambda k: ("Boom-instance", (k,)), "class": lambda k: ("class", "Box"),
+}
+
+
+def weight(a):
+    """Fold an abstract value into the accumulator (pure function of its canonical text)."""
+    return zlib.crc32(repr(a).encode("ascii")) % MOD
+
+
 def loop_items(m, cfg):
-    """What the loop awaits at step k: ('nest', k) | ('d', k, prefired, value)."""
-    pm, fm, nm = cfg["prefire_mod"], cfg["fail_mod"], cfg["nest_mod"]
+    """What the loop awaits at step k: ('nest', k, kind) | ('plain', k, kind) | ('d', k, prefired, failing, kind)."""
+    pm, fm, nm, plm = cfg["prefire_mod"], cfg["fail_mod"], cfg["nest_mod"], cfg.get("plain_mod", 0)
+    plain_ok = cfg["family"] == "inline"      # only a generator can be handed a non-awaitable back; `await 3` is a TypeError
     items = []
     for k in range(m):
+        kind = kind_of(k, cfg)
         if nm and k % nm == 2:
-            items.append(("nest", k))
+            items.append(("nest", k, kind))
+        elif plain_ok and plm and k % plm == plm - 1:
+            items.append(("plain", k, kind))
         else:
-            items.append(("d", k, bool(pm) and k % pm == 0, ("F", k) if (fm and k % fm == 0) else k))
+            items.append(("d", k, bool(pm) and k % pm == 0, bool(fm) and k % fm == 0, kind))
     return items
 
 
 def loop_model(items, cfg):
+    """Trivial sequential model: (what every `yield` / `await` evaluates to or raises, final result)."""
     acc = 0
+    exp = []
     for it in items:
         if it[0] == "nest":
-            acc = (acc + 2 * it[1]) % MOD
-        elif isinstance(it[3], tuple):
-            acc = (acc * 3 + it[3][1]) % MOD
+            e = EXPECTED_ABS[it[2]](2 * it[1])
+        elif it[0] == "plain":
+            e = EXPECTED_ABS[it[2]](it[1])
+        elif it[3]:
+            e = ("F", it[1])
         else:
-            acc = (acc + it[3]) % MOD
-    return ("F", acc) if cfg["end_raises"] else acc
+            e = EXPECTED_ABS[it[4]](it[1])
+        exp.append(e)
+        if e[0] == "F":
+            acc = (acc * 3 + e[1]) % MOD
+        else:
+            acc = (acc + weight(e)) % MOD
+    return exp, (("F", acc) if cfg["end_raises"] else acc)
 
 
 def run_loop(family, m, cfg, out):
     items = loop_items(m, cfg)
-    final = loop_model(items, cfg)
+    exp, final = loop_model(items, cfg)
+    bad = out["bad"]
     base = depth()
     steps = [0]
+    how = cfg.get("result_from", "callback")
 
     def probe():
         x = depth() - base
@@ -382,39 +510,99 @@ def run_loop(family, m, cfg, out):
             out["maxdepth"] = x
         steps[0] += 1
 
-    def firenow(d, v):
-        if isinstance(v, tuple):
-            d.errback(Boom(v[1]))
+    def got_value(k, v):
+        a = value_abs(v)
+        if a != exp[k] and len(bad) < 5:
+            bad.append((k, a, exp[k]))
+        return weight(a)
+
+    def got_boom(k, e):
+        a = ("F", e.args[0])
+        if a != exp[k] and len(bad) < 5:
+            bad.append((k, a, exp[k]))
+        return e.args[0]
+
+    def outcome_of(it):
+        # -> the success value, or the exception the Deferred fails with
+        return Boom(it[1]) if it[3] else make_value(it[1], it[4])
+
+    def raiser(_, exc):
+        raise exc
+
+    def new_deferred(it):
+        """Deferred for item `it`; with result_from == 'returned' its result will be what its last callback returns / raises."""
+        d = defer.Deferred()
+        if how == "returned":
+            if it[3]:
+                d.addCallback(raiser, outcome_of(it))
+            else:
+                d.addCallback(lambda _, v=outcome_of(it): v)
+        return d
+
+    def firenow(d, it):
+        if how == "returned":
+            d.callback(it[1])
+        elif it[3]:
+            d.errback(Boom(it[1]))
         else:
-            d.callback(v)
+            d.callback(make_value(it[1], it[4]))
+
+    def note_prefired(it):
+        out["prefired"] = out.get("prefired", 0) + 1
+        if it[3]:
+            return
+        kind = it[4]
+        if kind == "none":
+            out["pf_none"] = out.get("pf_none", 0) + 1
+        elif kind in ("zero", "false", "float-zero") or kind.startswith("empty-"):
+            out["pf_falsy"] = out.get("pf_falsy", 0) + 1
+        elif kind != "int":
+            out["pf_object"] = out.get("pf_object", 0) + 1
 
     ds = {}
     for it in items:
         if it[0] == "d":
-            d = ds[it[1]] = defer.Deferred()
             if it[2]:
-                firenow(d, it[3])
+                note_prefired(it)
+                if how == "helper":
+                    d = defer.fail(Boom(it[1])) if it[3] else defer.succeed(make_value(it[1], it[4]))
+                elif how == "chained":
+                    # a fired Deferred that obtained its result by chaining itself to a fired Deferred
+                    inner = defer.fail(Boom(it[1])) if it[3] else defer.succeed(make_value(it[1], it[4]))
+                    d = defer.succeed(None).addCallback(lambda _, inner=inner: inner)
+                else:
+                    d = new_deferred(it)
+                    firenow(d, it)
+                ds[it[1]] = d
+            else:
+                ds[it[1]] = new_deferred(it)
 
     @defer.inlineCallbacks
-    def sub_gen(k):
+    def sub_gen(k, kind):
         v = yield defer.succeed(k)
         probe()
-        return 2 * v
+        return make_value(2 * v, kind)
 
-    async def sub_coro(k):
+    async def sub_coro(k, kind):
         v = await defer.succeed(k)
         probe()
-        return 2 * v
+        return make_value(2 * v, kind)
 
     nest_kind = cfg["nest_kind"]
 
-    def nested(k):
+    def nested(it):
         # an already-finished nested computation, in the forms the loop may yield/await
+        if it[2] != "int":
+            out["nest_shaped"] = out.get("nest_shaped", 0) + 1
         if nest_kind == "gen":
-            return sub_gen(k)                       # fired Deferred from a nested inlineCallbacks
+            return sub_gen(it[1], it[2])                       # fired Deferred from a nested inlineCallbacks
         if nest_kind == "coro-deferred":
-            return defer.ensureDeferred(sub_coro(k))  # fired Deferred from a nested coroutine
-        return sub_coro(k)                          # bare coroutine object
+            return defer.ensureDeferred(sub_coro(it[1], it[2]))  # fired Deferred from a nested coroutine
+        return sub_coro(it[1], it[2])                          # bare coroutine object
+
+    def plain(it):
+        out["plain"] = out.get("plain", 0) + 1
+        return make_value(it[1], it[2])
 
     if family == "inline":
         @defer.inlineCallbacks
@@ -423,13 +611,15 @@ def run_loop(family, m, cfg, out):
             for it in items:
                 try:
                     if it[0] == "nest":
-                        v = yield nested(it[1])
+                        v = yield nested(it)
+                    elif it[0] == "plain":
+                        v = yield plain(it)        # not a Deferred: the generator gets the very value back
                     else:
                         v = yield ds[it[1]]
                 except Boom as e:
-                    acc = (acc * 3 + e.args[0]) % MOD
+                    acc = (acc * 3 + got_boom(it[1], e)) % MOD
                 else:
-                    acc = (acc + v) % MOD
+                    acc = (acc + got_value(it[1], v)) % MOD
                 probe()
             if cfg["end_raises"]:
                 raise Boom(acc)
@@ -441,13 +631,13 @@ def run_loop(family, m, cfg, out):
             for it in items:
                 try:
                     if it[0] == "nest":
-                        v = await nested(it[1])
+                        v = await nested(it)
                     else:
                         v = await ds[it[1]]
                 except Boom as e:
-                    acc = (acc * 3 + e.args[0]) % MOD
+                    acc = (acc * 3 + got_boom(it[1], e)) % MOD
                 else:
-                    acc = (acc + v) % MOD
+                    acc = (acc + got_value(it[1], v)) % MOD
                 probe()
             if cfg["end_raises"]:
                 raise Boom(acc)
@@ -467,7 +657,7 @@ def run_loop(family, m, cfg, out):
     for it in order_of(later, cfg["fire_order"], cfg["shuffle_seed"]):
         if fired and early is None:
             early = it[1]
-        firenow(ds[it[1]], it[3])
+        firenow(ds[it[1]], it)
     out["early"] = early
     out["fired"] = fired
     out["steps"] = steps[0]
@@ -509,7 +699,10 @@ def run(sim):
     else:
         cfg.update(nest_mod=sim.draw_choice([0, 4, 9], "nest_mod"),
                    nest_kind=sim.draw_choice(["gen", "coro-deferred", "coro"], "nest_kind"),
-                   end_raises=sim.draw_bool(0.3, "end_raises"))
+                   end_raises=sim.draw_bool(0.3, "end_raises"),
+                   value_pattern=sim.draw_weighted([(0, 3), (1, 2), (2, 2), (3, 2), (4, 2), (5, 3)], "value_pattern"),
+                   plain_mod=sim.draw_choice([0, 3, 1, 6], "plain_mod"),
+                   result_from=sim.draw_choice(["callback", "helper", "returned", "chained"], "result_from"))
     sim.config = cfg
     sim.event("config", sorted(cfg.items()))
     sim.check("recursion-limit-default", sys.getrecursionlimit() == 1000, "env", "recursion limit is %d" % sys.getrecursionlimit())
@@ -569,8 +762,25 @@ def run(sim):
         sim.probe("pipe_fired_before_built")
     if cfg["fail_mod"]:
         sim.fault("failure_results")
+    if out.get("pf_none"):
+        sim.probe("loop_prefired_result_none")
+    if out.get("pf_falsy"):
+        sim.probe("loop_prefired_result_falsy")
+    if out.get("pf_object"):
+        sim.probe("loop_prefired_result_object")
+    if out.get("plain"):
+        sim.probe("loop_plain_value_yield")
+    if out.get("plain") and out["plain"] == n:
+        sim.probe("loop_only_plain_value_yields")
+    if out.get("nest_shaped"):
+        sim.probe("loop_nested_returns_non_int")
+    if out.get("prefired") and cfg.get("result_from") == "returned":
+        sim.probe("loop_prefired_result_from_last_callback")
+    if out.get("prefired") and cfg.get("result_from") == "chained":
+        sim.probe("loop_prefired_result_from_chaining")
     sim.state((family, cls, cfg["fire_order"], cfg["prefire_mod"], cfg["fail_mod"], cfg.get("pause_mod"), cfg.get("nest_mod"), cfg.get("merge"),
-               cfg.get("ready_mod"), cfg.get("per_link"), cfg.get("wait_mod"), cfg.get("build")))
+               cfg.get("ready_mod"), cfg.get("per_link"), cfg.get("wait_mod"), cfg.get("build"), cfg.get("value_pattern"), cfg.get("plain_mod"),
+               cfg.get("result_from")))
     sim.nontrivial = n >= 100
 
 
@@ -583,5 +793,14 @@ MUTANTS = [
     "the same nested run only when the taken-over result is a Failure (`if isinstance(resultResult, Failure): currentResult.result = resultResult; "
     "current.pause(); currentResult.callbacks.append(current._continuation()); currentResult._runCallbacks(); break`): CAUGHT "
     "(stack-grows-with-length:chain, stack-grows-with-length:pipe)",
+    "loop unfolding skipped when the yielded fired Deferred's result is None (`if getattr(result, 'result', None) is None: waiting[0] = False; "
+    "status.waitingOn = result; result.addBoth(_gotResultInlineCallbacks, ...); return` taken for 'not fired yet'; seeded "
+    "C02-r4b-inline-none-result-fastpath): was MISSED while every awaited result was an int or a failure; CAUGHT (stack-grows-with-length:inline) "
+    "since result values are varied",
+    "result parked for the loop only when truthy (`if waiting[0]:` -> `if waiting[0] and r:` in _gotResultInlineCallbacks, so None / 0 / False / empty "
+    "results recurse): CAUGHT (stack-grows-with-length:inline)",
+    "the same for falsy results other than None (`if waiting[0] and (r or r is None):`): CAUGHT (stack-grows-with-length:inline)",
+    "plain (non-Deferred) yields handled by a tail call (`if not isDeferred: return _inlineCallbacks(result, gen, status, context)` before "
+    "`if isDeferred:`): CAUGHT (stack-grows-with-length:inline)",
     "_inlineCallbacks loop unfolding removed (`if waiting[0]:` -> `if False:` in _gotResultInlineCallbacks, so every ready yield recurses): CAUGHT (stack-grows-with-length:inline)",
 ]
